@@ -343,6 +343,21 @@ Definition behaviour_of (u : ustate) (target type : Z) : option behav :=
 (** Fuel for the future-callback cascade inside one invocation. *)
 Definition cascade_fuel : nat := 64.
 
+(** [handle_event] returned a generator: the generator object exists (pid), then
+    [_start_process] builds a ProcessContinuation (consuming a sort index) and
+    invokes it at once. *)
+Definition start_process (now : Z) (e : sev) (steps : list gstep) (ret : list emit) (c0 : ictx) : option ictx :=
+  let u := ix_u c0 in
+  let p := ev_pay e in
+  let pid := next_pid u in
+  let pr := mkProc steps ret (p_type p) (p_target p) (ev_daemon e) (p_hid p) in
+  let u1 := mkU (prog u) (aset pid pr (procs u)) (pid + 1) (futs u) (next_fid u) (alls u)
+                (hooks u) (next_hid u) (labels u) (crashed u) (ulog u) in
+  let ck := new_ev (ev_time e) (ev_daemon e) (mkPay (p_type p) (p_target p) (p_hid p) (KCont pid VNone))
+                   (set_u c0 u1) in
+  let c2 := set_u (fst ck) (add_log (ix_u (fst ck)) (UResume now pid VNone)) in
+  advance cascade_fuel now (snd ck) pid pr steps c2.
+
 (** [Event.invoke] / [ProcessContinuation.invoke]. *)
 Definition invoke_ctx (u : ustate) (now : Z) (e : sev) (ctr0 : Z) : option ictx :=
   let c0 := mkI u ctr0 [] [] in
@@ -366,17 +381,7 @@ Definition invoke_ctx (u : ustate) (now : Z) (e : sev) (ctr0 : Z) : option ictx 
           | None => None
           | Some c1 => Some (run_hooks (ev_time e) (p_hid p) c1)
           end
-      | Some (BGen steps ret) =>
-          (* the generator object is created (pid), then _start_process builds a
-             ProcessContinuation (consuming a sort index) and invokes it at once *)
-          let pid := next_pid u in
-          let pr := mkProc steps ret (p_type p) (p_target p) (ev_daemon e) (p_hid p) in
-          let u1 := mkU (prog u) (aset pid pr (procs u)) (pid + 1) (futs u) (next_fid u) (alls u)
-                        (hooks u) (next_hid u) (labels u) (crashed u) (ulog u) in
-          let ck := new_ev (ev_time e) (ev_daemon e) (mkPay (p_type p) (p_target p) (p_hid p) (KCont pid VNone))
-                           (set_u c0 u1) in
-          let c2 := set_u (fst ck) (add_log (ix_u (fst ck)) (UResume now pid VNone)) in
-          advance cascade_fuel now (snd ck) pid pr steps c2
+      | Some (BGen steps ret) => start_process now e steps ret c0
       end
   end.
 
